@@ -8,7 +8,6 @@ import (
 	"strings"
 	"time"
 
-	"github.com/cedar-policy/cedar-go/types"
 	"github.com/cedar-policy/cedar-go/x/exp/schema"
 	sast "github.com/cedar-policy/cedar-go/x/exp/schema/ast"
 
@@ -270,58 +269,22 @@ func (f schemaFeatures) primitiveShadowed() bool {
 	return false
 }
 
-// classifyC17 maps (failing leg, kind of failure, input features) to a narrow class; "" = unexplained.
+// Classification of a failing (leg, kind) is by REPAIR, not by the features of the input alone: see c17_attrib.go.
 //
 //	leg: text | json | t2j | j2t      kind: unparseable | unstable | resolve-differs | panic
-func classifyC17(leg, kind string, f schemaFeatures) string {
-	textual := leg == "text" || leg == "j2t" // legs whose failure can come from rendering Cedar text
-	switch {
-	case kind == "panic":
-		return ""
-	case f.emptyEnum && (leg == "json" || leg == "t2j" || leg == "j2t") && (kind == "resolve-differs" || kind == "unstable"):
-		return "empty-enum-becomes-entity"
-	case f.dupEntityEnum:
-		return "ast-entity-and-enum-same-name"
-	case textual && kind == "unparseable" && f.badIdent:
-		return "unvalidated-identifier-renders-unparseable"
-	case textual && kind == "unparseable" && f.reservedCommon:
-		return "reserved-common-type-name-renders-unparseable"
-	case textual && kind == "unparseable" && f.typeNamedSet:
-		return "type-named-Set-renders-unparseable"
-	case textual && kind == "unparseable" && f.setQualified:
-		return "type-reference-into-namespace-Set-renders-unparseable"
-	case textual && kind == "unparseable" && f.appliesNoPR:
-		return "appliesTo-without-principal-or-resource-renders-unparseable"
-	case textual && kind == "unparseable" && f.cedarNamespace:
-		return "cedar-namespace-renders-unparseable"
-	case textual && kind == "unparseable" && f.emptyNSKey:
-		return "ast-empty-namespace-key"
-	case textual && kind == "resolve-differs" && f.primitiveShadowed():
-		return "primitive-shadowed-by-entity"
-	case textual && kind == "resolve-differs" && f.unknownExt:
-		return "unknown-extension-name-accepted"
-	case textual && kind == "resolve-differs" && f.entityRefNode:
-		return "entity-ref-rendered-as-ambiguous-name"
-	}
-	return ""
-}
 
 type c17Stats struct {
 	legsRun map[string]int
 }
 
-// checkC17 runs the four round trips on one AST.
+// checkC17 runs the four round trips on one AST and reports every failing (leg, kind) under the class c17Attribute finds.
 func checkC17(c *vh.Ctx, tag string, s0 *sast.Schema, feat schemaFeatures) {
 	report := func(leg, kind, what string, exp, act any) {
-		cls := classifyC17(leg, kind, feat)
-		if cls == "primitive-shadowed-by-entity" && feat.entityRefNode && c17EntityRefExplains(s0) {
-			// both features are present: attribute by repair (the variant without entity-reference nodes round-trips)
-			cls = "entity-ref-rendered-as-ambiguous-name"
+		var trace func(string)
+		if os.Getenv("VH_C17_DEBUG") != "" {
+			trace = func(l string) { fmt.Fprintf(os.Stderr, "C17 ATTRIB %s %s/%s: %s\n", tag, leg, kind, l) }
 		}
-		if kind == "unparseable" && feat.appliesNoPR && strings.Contains(what, "appliesTo must include") {
-			// several features present: the parser's own message names the cause (the open appliesTo finding)
-			cls = "appliesTo-without-principal-or-resource-renders-unparseable"
-		}
+		cls := c17Attribute(s0, leg, kind, trace)
 		if cls == "" {
 			cls = "unexplained-" + leg + "-" + kind
 		}
@@ -333,16 +296,21 @@ func checkC17(c *vh.Ctx, tag string, s0 *sast.Schema, feat schemaFeatures) {
 		c.Report(vh.Finding{Class: cls, What: fmt.Sprintf("%s leg, %s: %s (case %s)", leg, kind, what, tag), Check: "oracle", Op: "schema-roundtrip-" + leg,
 			Input: map[string]any{"schema": vh.EncSchema(s0), "tag": tag}, Expected: exp, Actual: act})
 	}
-	oracle := func() { c.Res.OracleChecks++ }
+	c17Legs(s0, feat, report, c.Dist, func() { c.Res.OracleChecks++ })
+}
+
+// c17Legs: the four round trips of one AST; every failing (leg, kind) goes to report (also used, with a collecting
+// report, to re-run the legs on the repaired variants of a failing schema).
+func c17Legs(s0 *sast.Schema, feat schemaFeatures, report func(leg, kind, what string, exp, act any), dist func(string), oracle func()) {
 	r0 := resolveOut(s0)
 	if r0.panic != nil {
 		report("resolve", "panic", fmt.Sprint(r0.panic), "a resolved schema or an error", r0.String())
 		return
 	}
 	if r0.ok {
-		c.Dist("resolve:ok")
+		dist("resolve:ok")
 	} else {
-		c.Dist("resolve:err")
+		dist("resolve:err")
 	}
 	var t1, j1 []byte
 	var sT, sJ *sast.Schema
@@ -374,11 +342,11 @@ func checkC17(c *vh.Ctx, tag string, s0 *sast.Schema, feat schemaFeatures) {
 			// (parse (print s)).bind resolve = resolve s: a rejected rendering of a schema that does not resolve either is consistent
 			oracle()
 			if notASchema {
-				c.Dist("text:unparseable-and-not-a-schema")
+				dist("text:unparseable-and-not-a-schema")
 			} else if r0.ok {
 				report("text", "unparseable", "rendered Cedar text of a resolvable schema does not parse: "+err.Error(), r0.String(), string(t1))
 			} else {
-				c.Dist("text:unparseable-and-unresolvable")
+				dist("text:unparseable-and-unresolvable")
 			}
 		} else {
 			sT = sc.AST()
@@ -405,7 +373,7 @@ func checkC17(c *vh.Ctx, tag string, s0 *sast.Schema, feat schemaFeatures) {
 		} else if err != nil {
 			oracle()
 			if notASchema {
-				c.Dist("json:unparseable-and-not-a-schema")
+				dist("json:unparseable-and-not-a-schema")
 			} else {
 				report("json", "unparseable", "rendered JSON does not parse: "+err.Error(), "parses", string(j1))
 			}
@@ -442,7 +410,7 @@ func checkC17(c *vh.Ctx, tag string, s0 *sast.Schema, feat schemaFeatures) {
 			t2, _ := schema.NewSchemaFromAST(sT).MarshalCedar()
 			t3, _ := schema.NewSchemaFromAST(sc.AST()).MarshalCedar()
 			if !bytes.Equal(t2, t3) {
-				c.Dist("t2j:text-reordered")
+				dist("t2j:text-reordered")
 			}
 			var sc3 schema.Schema
 			oracle()
@@ -466,7 +434,7 @@ func checkC17(c *vh.Ctx, tag string, s0 *sast.Schema, feat schemaFeatures) {
 			if rJ.ok {
 				report("j2t", "unparseable", "Cedar rendering of a parsed, resolvable JSON schema does not parse: "+err.Error(), rJ.String(), string(tJ))
 			} else {
-				c.Dist("j2t:unparseable-and-unresolvable")
+				dist("j2t:unparseable-and-unresolvable")
 			}
 		} else {
 			oracle()
@@ -605,75 +573,4 @@ func runC17(c *vh.Ctx) {
 	}
 	sort.Strings(keys)
 	c.Res.Notes = append(c.Res.Notes, "failures by class: "+strings.Join(keys, " "))
-}
-
-// ---- attribution by repair for text legs whose resolution differs ----
-
-// c17DemoteType replaces every explicit entity-type reference NODE by the type-name reference the Cedar text of it denotes.
-func c17DemoteType(t sast.IsType) sast.IsType {
-	switch v := t.(type) {
-	case sast.EntityTypeRef:
-		return sast.Type(types.Path(v))
-	case sast.SetType:
-		return sast.SetType{Element: c17DemoteType(v.Element)}
-	case sast.RecordType:
-		if v == nil {
-			return v
-		}
-		out := sast.RecordType{}
-		for k, a := range v {
-			out[k] = sast.Attribute{Type: c17DemoteType(a.Type), Optional: a.Optional, Annotations: a.Annotations}
-		}
-		return out
-	}
-	return t
-}
-
-func c17DemoteNamespace(ns sast.Namespace) sast.Namespace {
-	for k, e := range ns.Entities {
-		if e.Shape != nil {
-			e.Shape = c17DemoteType(e.Shape).(sast.RecordType)
-		}
-		if e.Tags != nil {
-			e.Tags = c17DemoteType(e.Tags)
-		}
-		ns.Entities[k] = e
-	}
-	for k, a := range ns.Actions {
-		if a.AppliesTo != nil && a.AppliesTo.Context != nil {
-			at := *a.AppliesTo
-			at.Context = c17DemoteType(at.Context)
-			a.AppliesTo = &at
-			ns.Actions[k] = a
-		}
-	}
-	for k, ct := range ns.CommonTypes {
-		ct.Type = c17DemoteType(ct.Type)
-		ns.CommonTypes[k] = ct
-	}
-	return ns
-}
-
-// c17EntityRefExplains: the schema with its explicit entity-reference nodes written as what their text means round-trips
-// through text with the same resolution — then the entity-reference ambiguity alone explains a resolve-differs of s0.
-func c17EntityRefExplains(s0 *sast.Schema) bool {
-	ok := false
-	vh.Protect(func() {
-		cp := c14CopySchema(s0, nil)
-		top := c17DemoteNamespace(sast.Namespace{Entities: cp.Entities, Enums: cp.Enums, Actions: cp.Actions, CommonTypes: cp.CommonTypes})
-		cp.Entities, cp.Enums, cp.Actions, cp.CommonTypes = top.Entities, top.Enums, top.Actions, top.CommonTypes
-		for k, ns := range cp.Namespaces {
-			cp.Namespaces[k] = c17DemoteNamespace(ns)
-		}
-		t, err := schema.NewSchemaFromAST(cp).MarshalCedar()
-		if err != nil {
-			return
-		}
-		var sc schema.Schema
-		if sc.UnmarshalCedar(t) != nil {
-			return
-		}
-		ok = sameRes(resolveOut(cp), resolveOut(sc.AST()))
-	})
-	return ok
 }
